@@ -19,6 +19,7 @@ PROPS = {
             "parts": [
                 {"name": "seq", "vehicle": "overlay", "pkg": "internal/dynamiccache", "test": "TestC12Sequences", "quick_checks": 20000, "thorough_checks": 800000, "thorough_shards": 16},
                 {"name": "exhaustive", "vehicle": "overlay", "pkg": "internal/dynamiccache", "test": "TestC12Exhaustive", "quick_checks": 1, "quick_scale": 0, "thorough_scale": 2, "replayable": False},
+                {"name": "interleave", "vehicle": "overlay", "pkg": "internal/dynamiccache", "test": "TestC12Interleave", "quick_checks": 1, "quick_shards": 16, "quick_scale": 1, "thorough_shards": 16, "thorough_scale": 2},
                 {"name": "race", "vehicle": "overlay", "pkg": "internal/dynamiccache", "race": True, "test": "TestC12Race", "quick_checks": 300, "thorough_checks": 20000, "thorough_shards": 8, "replayable": False},
             ]},
     "C20": {"level": "exploration", "assumptions": ["the registry pull is replaced by a scripted function (set in-package through the overlay); in the scripted part every scheduling decision between registration, completion and broadcast is made by the scenario; the free-running part samples Go scheduler interleavings under the race detector"],
